@@ -71,7 +71,18 @@ def assumed_contracts():
                     continue
                 if getattr(con, "assumed", False):
                     out.append("%s:%s.%s" % (name, cls, fn))
-    return sorted(out)
+    return sorted(out) + INLINE_MODELS
+
+
+# models written directly into a library (no FnContract object, so the scan above cannot see them); their bodies are
+# NOT verified against these models
+INLINE_MODELS = [
+    "nodes: the abstract edge interface seen by node bodies (reserve_put/reserve_get return a fresh token of that edge; "
+    "put/get/cancel consume a granted own token; can_put/can_get answer from a per-segment oracle and agree with a reservation "
+    "issued in the same segment): proved for Buffer and Fleet by the edges library (C11), assumed for the conveyor edges",
+    "nodes: Item(...) / Pallet(...) constructors: a fresh object with flow_item_type set and all timestamps None",
+    "SimPy: Environment, Event, Timeout, AnyOf, Process, Interrupt, Resource, Store.__init__ (K-contracts, see trusted_base)",
+]
 
 
 def unit_props(unit):
